@@ -673,7 +673,7 @@ macro_rules! cfg {
 }
 
 // ============================ alloc_bytes from INV ==========================================
-// @h props=C01,C03,C08,C10,C16,C20 quick=C01,C08,C10 timeout=1500 bounds=CAP=128,MAXN=2,n<=256
+// @h props=C01,C03,C08,C10,C16,C20 quick=C01,C08,C10,C20 timeout=1500 bounds=CAP=128,MAXN=2,n<=256
 #[kani::proof]
 #[kani::unwind(5)]
 fn inv_alloc_bytes_unsync_opt_n2() {
@@ -694,7 +694,7 @@ fn inv_alloc_bytes_sync_opt_n2() {
   step_alloc::<sync::Arena, u8, 2, 3, 128>(cfg!(Optimistic, 1), Kind::Bytes);
 }
 
-// @h props=C01,C03,C08,C10,C16,C20 quick=C01,C08,C10 timeout=1800 bounds=CAP=128,MAXN=2,n<=256,retries=1
+// @h props=C01,C03,C08,C10,C16,C20 quick=C01,C08,C10,C20 timeout=1800 bounds=CAP=128,MAXN=2,n<=256,retries=1
 #[kani::proof]
 #[kani::unwind(5)]
 fn inv_alloc_bytes_sync_pess_n2() {
